@@ -42,7 +42,8 @@ def run(ctx):
     ops, meta = [], []
     for ver in VERS:
         for k in keys:
-            for rs, plen in ((16, 0), (16, 16), (16, 40), (1, 3), (4096, 10)):
+            # record size x payload length, incl. final records longer than a reader's first buffer (512) and exact multiples
+            for rs, plen in ((16, 0), (16, 16), (16, 40), (1, 3), (4096, 10), (4096, 1000), (1000, 1000), (100, 513), (4096, 8192), (513, 513), (512, 1023)):
                 rq = [(b'Accept', [b'*/*'])] if ver != 'b3' else []
                 e = ex(ver, b'https://example.com/', b'GET', rq, 200, [(b'Content-Type', [b'text/html']), (b'Foo', [b'Bar', b'Baz'])], b'', rbytes(rng, plen))
                 ops.append(f'sxg.sign {exs(e)} {rs} {k["cert"]} {k["key"]} {hexs(certurl)} {hexs(vurl)} {date} {expires}')
@@ -51,7 +52,7 @@ def run(ctx):
     honest = [(parse_ex(r), k) for r, k in zip(res, meta) if r and parse_ex(r)]
     if len(honest) < len(ops):
         ctx.infra.append(f'sxg.sign failed for {len(ops) - len(honest)} honest exchanges')
-    wr = ctx.go([f'sxg.write {exs(e)}' for e, k in honest])
+    wr, _ = ctx.both([f'sxg.write {exs(e)}' for e, k in honest])      # compared: the file the mutants are cut from is the model's file too
     files = [(unhex(r.split(' ')[1]), e, k) for r, (e, k) in zip(wr, honest) if r and r.startswith('ok ')]
     # --- file-level mutants
     mutants = []      # (file hex, key)
@@ -160,7 +161,8 @@ def run(ctx):
         other_same_curve = [kk for kk in keys if kk is not k]
         for kk in other_same_curve:
             items.append((e0, t_ok, {certurl: kk['chain']}))
-        for t in [(date, 0), (expires, 0), (date - 1, 0), (expires + 1, 0), (0, 0), (2**40, 0)]:
+        for t in [(date, 0), (expires, 0), (date - 1, 0), (expires + 1, 0), (0, 0), (2**40, 0),
+                  (expires, 1), (expires, 500000000), (expires, 999999999), (date - 1, 999999999), (date, 1), (expires - 1, 999999999)]:
             items.append((e0, t, fetch))
     if not thorough and len(items) > 9000:
         # keep every in-memory variant; sample the file-level mutants
